@@ -7,6 +7,7 @@ import (
 	"io/fs"
 	"os"
 	"path"
+	"path/filepath"
 	"sort"
 	"strings"
 	"syscall"
@@ -891,3 +892,64 @@ func (h *File) WriteString(s string) (int, error) { return h.Write([]byte(s)) }
 
 // Fd is not supported.
 func (h *File) Fd() uintptr { panic(HarnessError{"Fd() is not modelled"}) }
+
+// Glob is filepath.Glob over the simulated tree (same algorithm as the standard library: the
+// directory part is expanded first, every directory visited is stat-ed and listed through the
+// simulated Stat / ReadDir, so each of them is an operation a fault or a kill can strike).
+func Glob(pattern string) ([]string, error) {
+	if _, err := filepath.Match(pattern, ""); err != nil {
+		return nil, err
+	}
+	if !strings.ContainsAny(pattern, `*?[\`) {
+		if _, err := Lstat(pattern); err != nil {
+			return nil, nil
+		}
+		return []string{pattern}, nil
+	}
+	dir, file := filepath.Split(pattern)
+	switch dir {
+	case "":
+		dir = "."
+	case "/":
+	default:
+		dir = dir[:len(dir)-1]
+	}
+	if !strings.ContainsAny(dir, `*?[\`) {
+		return globDir(dir, file, nil)
+	}
+	if dir == pattern {
+		return nil, filepath.ErrBadPattern
+	}
+	parents, err := Glob(dir)
+	if err != nil {
+		return nil, err
+	}
+	var matches []string
+	for _, d := range parents {
+		if matches, err = globDir(d, file, matches); err != nil {
+			return nil, err
+		}
+	}
+	return matches, nil
+}
+
+func globDir(dir, pattern string, matches []string) ([]string, error) {
+	fi, err := Stat(dir)
+	if err != nil || !fi.IsDir() {
+		return matches, nil // like the standard library: I/O errors are ignored
+	}
+	ents, err := ReadDir(dir)
+	if err != nil {
+		return matches, nil
+	}
+	for _, e := range ents {
+		ok, merr := filepath.Match(pattern, e.Name())
+		if merr != nil {
+			return matches, merr
+		}
+		if ok {
+			matches = append(matches, filepath.Join(dir, e.Name()))
+		}
+	}
+	return matches, nil
+}
